@@ -89,7 +89,7 @@ pub fn judge_payload(l: &mut Local, p: &[u8], cfg: Cfg) -> bool {
 
 pub fn judge_decoded(l: &mut Local, p: &[u8], exp: &Expectation, got: &DecodeOut, cfg: Cfg) -> bool {
     l.class(got.class());
-    l.outcome(got.digest());
+    l.outcome(if exp.noalloc_may_err { crate::par::CAP_TOKEN } else { got.digest() });
     let t = exp.mtype;
     let mut decoded = false;
     match got {
@@ -134,7 +134,10 @@ pub fn judge_decoded(l: &mut Local, p: &[u8], exp: &Expectation, got: &DecodeOut
                 let mut mm = s.borrow_mut();
                 msg::compare(exp, fields, &mut mm);
                 for m in mm.iter() {
-                    if !props_of(m).contains(&cfg.prop) {
+                    // C18: beyond a documented capacity the no-allocator build may answer Err, but an
+                    // Ok must be the full, untruncated message
+                    let c18_truncation = cfg.prop == "C18" && subj::NOALLOC && exp.noalloc_may_err;
+                    if !props_of(m).contains(&cfg.prop) && !c18_truncation {
                         continue;
                     }
                     let sig = if t == 9 && m.class == Class::Radio && is_type9_read_at_148(p, fields) {
